@@ -13,8 +13,8 @@ def showFrame : Frame → String
   | .trailers s => s!"T{s}"
   | .rst s => s!"R{s}"
 
-def showUp (u : Nat × UpKind) : String :=
-  match u.2 with
+def showUp (u : Nat × UpKind × Option Nat) : String :=
+  match u.2.1 with
   | .hdr f => s!"{u.1}h{b01 f}"
   | .data n => s!"{u.1}d{n}"
   | .trailers => s!"{u.1}t"
